@@ -829,9 +829,16 @@ fn partition(
         )))
     };
 
-    // We don't want to remove dirs or symlinks
+    // We don't want to remove dirs or symlinks.
+    // The metadata was read through links, so a file replaced by a link to another file
+    // still looks like a regular file. Unless links were reported on purpose, such a path
+    // doesn't hold its own copy of the data any more and must not count as a replica.
     files.retain(|m| {
-        let is_file = m.metadata.is_file();
+        let is_link = config.no_symbolic_links
+            && fs::symlink_metadata(m.path.to_path_buf())
+                .map(|m| m.file_type().is_symlink())
+                .unwrap_or(false);
+        let is_file = m.metadata.is_file() && !is_link;
         if !is_file {
             log.warn(format!(
                 "Skipping file {}: Not a regular file",
